@@ -93,6 +93,8 @@ func varName(v ssa.Value, depth int) string {
 		}
 	case *ssa.Slice:
 		return varName(x.X, depth+1)
+	case *ssa.MakeSlice:
+		return assignedNameAt(x.Parent(), x.Pos())
 	case *ssa.Call:
 		if b, ok := x.Call.Value.(*ssa.Builtin); ok && b.Name() == "append" {
 			return varName(x.Call.Args[0], depth+1)
@@ -106,10 +108,13 @@ type idxCtx struct {
 	loops  map[*ssa.Function][]*natLoop
 	active map[string]bool // names of ACTIVE slices
 	seg    map[string]bool // names of SEG slices
+	// local tables allocated with the length of a table of known space (`make([]T, len(segments))`):
+	// one slot per element of that table, so indexed in its space
+	sized map[ssa.Value]idxSpace
 }
 
 func newIdxCtx(p *Program, fn *ssa.Function, members []*ssa.Function) *idxCtx {
-	ic := &idxCtx{fn: fn, loops: map[*ssa.Function][]*natLoop{}, active: map[string]bool{}, seg: map[string]bool{}}
+	ic := &idxCtx{fn: fn, loops: map[*ssa.Function][]*natLoop{}, active: map[string]bool{}, seg: map[string]bool{}, sized: map[ssa.Value]idxSpace{}}
 	for _, prm := range fn.Params {
 		if isPerSegmentSliceType(prm.Type()) {
 			ic.seg[prm.Name()] = true
@@ -155,6 +160,25 @@ func newIdxCtx(p *Program, fn *ssa.Function, members []*ssa.Function) *idxCtx {
 			}
 		}
 	}
+	for _, f := range members {
+		eachInstr(f, func(_ *ssa.BasicBlock, in ssa.Instruction) {
+			mk, ok := in.(*ssa.MakeSlice)
+			if !ok {
+				return
+			}
+			la := lenArgOf(mk.Len)
+			if la == nil {
+				return
+			}
+			if sp := ic.sliceSpace(la); sp == spSeg || sp == spActive {
+				// (an ACTIVE table grows while it is filled: a table sized by it at that point is not
+				// reliably in its space; only SEG lengths are fixed)
+				if sp == spSeg {
+					ic.sized[mk] = sp
+				}
+			}
+		})
+	}
 	return ic
 }
 
@@ -166,6 +190,20 @@ func isSliceOfInterest(t types.Type) bool {
 func (ic *idxCtx) sliceSpace(v ssa.Value) idxSpace {
 	if isLowList(v) {
 		return spLow
+	}
+	if sp, ok := ic.sized[root(v)]; ok {
+		return sp
+	}
+	if u, ok := v.(*ssa.UnOp); ok && u.Op == token.MUL {
+		// through the local variable that holds it
+		if cell := localCellOfLoad(u); cell != nil {
+			sts := cellStores(cell)
+			if len(sts) == 1 {
+				if sp, ok := ic.sized[root(sts[0].Val)]; ok {
+					return sp
+				}
+			}
+		}
 	}
 	n := varName(v, 0)
 	if n == "" {
